@@ -190,7 +190,7 @@ theorem tail_direct (c : Cfg) (ar aq : Nat) (s : S) (b : Base c ar aq s) (hrun :
 theorem tail_oneway (c : Cfg) (ar aq : Nat) (s : S) (b : Base c ar aq s) (hrun : s.running = true) (hcl : s.cleaned = false)
     (how : c.oneway = true) (h3 : K3 s) (h6 : K6 s) (hpd : s.procDone = false) (hsr : s.setupRetry = false)
     (hpass : s.pass = 0) (hrs : s.respStarted = false) (rs' : Option RetryState) (hheld : rs' = s.rs ∨ (rs' = none ∧ rsHeld s = false))
-    (h27 : s.urr = true → s.upReset = true ∨ (s.resp.isSome = true ∧ liveCount s.streams = 0)) :
+    (h27 : s.urr = true → s.upReset = true ∨ (s.resp.isSome = true ∧ (liveCount s.streams = 0 ∨ respHasMore s.resp = true))) :
     Inv c ar aq (reenter { s with direct := false, rs := rs' } .Oneway) := by
   have hre : reenter { s with direct := false, rs := rs' } .Oneway =
       { s with direct := false, rs := rs', pass := 1, phase := .Oneway, notify := false } := by
